@@ -272,29 +272,71 @@ func Live(text string, construct string) (n jd.JsonNode, ok bool) {
 	}
 	replace := strings.HasPrefix(construct, "replace:")
 	construct = strings.TrimPrefix(construct, "replace:")
+	// "leaf:<options>": the start document differs from the wanted one in every scalar that lies
+	// below an array (other than an "id" member), so the hunks that build the live value have
+	// paths that lead *through* array positions / keyed members into the containers below them.
+	leaf := strings.HasPrefix(construct, "leaf:")
+	construct = strings.TrimPrefix(construct, "leaf:")
 	arrays := 0
 	var grow func(x ref.V) ref.V
-	grow = func(x ref.V) ref.V {
-		switch t := x.(type) {
-		case []interface{}:
-			arrays++
-			if replace {
-				// the whole array arrives as the added value of one hunk
-				return "\u0001placeholder"
+	if leaf {
+		leaves := 0
+		var below func(x ref.V, under bool, key string) ref.V
+		below = func(x ref.V, under bool, key string) ref.V {
+			switch t := x.(type) {
+			case []interface{}:
+				arrays++
+				out := make([]interface{}, 0, len(t))
+				for _, e := range t {
+					out = append(out, below(e, true, ""))
+				}
+				return out
+			case map[string]interface{}:
+				out := map[string]interface{}{}
+				for k, e := range t {
+					out[k] = below(e, under, k)
+				}
+				return out
 			}
-			out := make([]interface{}, 0, len(t)+1)
-			for _, e := range t {
-				out = append(out, grow(e))
+			if under && key != "id" {
+				leaves++
+				return "\u0001leaf"
 			}
-			return append(out, "\u0001sentinel")
-		case map[string]interface{}:
-			out := map[string]interface{}{}
-			for k, e := range t {
-				out[k] = grow(e)
-			}
-			return out
+			return x
 		}
-		return x
+		grow = func(x ref.V) ref.V {
+			r := below(x, false, "")
+			if leaves == 0 {
+				arrays = 0
+			}
+			return r
+		}
+	} else {
+		grow = nil
+	}
+	if grow == nil {
+		grow = func(x ref.V) ref.V {
+			switch t := x.(type) {
+			case []interface{}:
+				arrays++
+				if replace {
+					// the whole array arrives as the added value of one hunk
+					return "\u0001placeholder"
+				}
+				out := make([]interface{}, 0, len(t)+1)
+				for _, e := range t {
+					out = append(out, grow(e))
+				}
+				return append(out, "\u0001sentinel")
+			case map[string]interface{}:
+				out := map[string]interface{}{}
+				for k, e := range t {
+					out[k] = grow(e)
+				}
+				return out
+			}
+			return x
+		}
 	}
 	start := ref.JSON(grow(v))
 	if arrays == 0 {
